@@ -68,7 +68,29 @@ func runC12(s *kernel.Sim) {
 	stored := map[string]*c12stored{} // unique body -> what was stored
 	methods := []string{"GET", "POST"}
 	urls := []string{"a.com/x", "a.com/y", "b.io/x"}
+	// the record key includes the selected path parameters: one parameter, or two
+	// whose values contain the separator characters or are absent on one side
 	ids := []string{"1", "2"}
+	params := func(id string) map[string]string { return map[string]string{"id": id} }
+	if !throttling && tp.Chance(1, 2) {
+		cacheCfg.RequestPayloadPaths = []sharedConfig.PayloadPath{
+			{PayloadType: sharedConfig.RequestPathParamPayload, Path: "owner"},
+			{PayloadType: sharedConfig.RequestPathParamPayload, Path: "repo"},
+		}
+		ids = []string{"foo|bar.js", "foo.bar|js", "42|", "|42"}
+		params = func(id string) map[string]string {
+			m := map[string]string{}
+			p := strings.SplitN(id, "|", 2)
+			if p[0] != "" {
+				m["owner"] = p[0]
+			}
+			if p[1] != "" {
+				m["repo"] = p[1]
+			}
+			return m
+		}
+		s.Knobs["key_params"] = "owner,repo"
+	}
 	type key struct{ m, u, id string }
 	keyStr := func(k key) string {
 		if throttling {
@@ -77,7 +99,7 @@ func runC12(s *kernel.Sim) {
 		return k.m + " " + k.u + " id=" + k.id
 	}
 	pickKey := func() key {
-		return key{methods[tp.Choose(2)], urls[tp.Choose(3)], ids[tp.Choose(2)]}
+		return key{methods[tp.Choose(2)], urls[tp.Choose(3)], ids[tp.Choose(len(ids))]}
 	}
 	n := 0
 	pads := []string{""}
@@ -117,7 +139,7 @@ func runC12(s *kernel.Sim) {
 		st.status, st.ttl = 200, time.Duration(ttlS)*time.Second
 		stored[body] = st
 		s.Event("response", st.key, fmt.Sprintf("body#%d", n))
-		_, err := cache.OnResponse(lunarMessages.OnResponse{ID: fmt.Sprintf("t%d", n), Method: k.m, URL: k.u, Status: 200, Body: body, Headers: hdr}, cacheCfg, map[string]string{"id": k.id})
+		_, err := cache.OnResponse(lunarMessages.OnResponse{ID: fmt.Sprintf("t%d", n), Method: k.m, URL: k.u, Status: 200, Body: body, Headers: hdr}, cacheCfg, params(k.id))
 		if err != nil {
 			s.Violate("R1", "plugin-error", "OnResponse error: %v", err)
 		}
@@ -130,7 +152,7 @@ func runC12(s *kernel.Sim) {
 		if throttling {
 			act, err = thr.OnRequest(lunarMessages.OnRequest{ID: fmt.Sprintf("t%d", n), Method: k.m, URL: k.u, Headers: map[string]string{}}, thrCfg)
 		} else {
-			act, err = cache.OnRequest(lunarMessages.OnRequest{ID: fmt.Sprintf("t%d", n), Method: k.m, URL: k.u, Headers: map[string]string{}}, cacheCfg, map[string]string{"id": k.id})
+			act, err = cache.OnRequest(lunarMessages.OnRequest{ID: fmt.Sprintf("t%d", n), Method: k.m, URL: k.u, Headers: map[string]string{}}, cacheCfg, params(k.id))
 		}
 		if err != nil {
 			s.Violate("R1", "plugin-error", "OnRequest error: %v", err)
